@@ -1,5 +1,8 @@
 import Litep2pVerif.Common.Parse
 import Litep2pVerif.Model.Kad.Coordinator
+import Litep2pVerif.Model.Kad.Executor
+import Litep2pVerif.Model.Kad.Serve
+import Litep2pVerif.Generated.Consts
 /-!
 Line-protocol driver for the Kademlia coordinator model (C16), in checker mode: every input line
 is `op -> observation of the implementation`. The engine actions (`act:`) and executor results
@@ -34,6 +37,29 @@ structure DState where
   outRx : List (Sid × String) := []
   outEv : List String := []
   err : Option String := none
+  -- serving side (inbound requests, local store, routing table, provider refresh)
+  cfg : Kad.Serve.Cfg := {}
+  sv : Kad.Serve.SState := {}
+  /-- logical time, ms -/
+  now : Nat := 0
+  maxmsg : Nat := 71680
+  /-- inbound substreams: number, peer, request (`none`: nothing is sent), 0 = fits / 1 = too big / 2 = near the limit -/
+  inReqs : List (Nat × Peer × Option Kad.Serve.Req × Nat) := []
+  nInbound : Nat := 0
+  /-- read futures of inbound substreams `(peer, inbound number)` and response futures `(peer, eatFailure)` -/
+  inReads : List (Peer × Nat) := []
+  inSends : List (Peer × Bool) := []
+  outResp : List String := []
+  /-- `resp:` tokens of the implementation (checker mode for `closest` on a table larger than the replication factor) -/
+  implResp : List String := []
+  /-- nodes of the reply given in this operation -/
+  pendingReply : Option (List Nat) := none
+  /-- the reply given in this operation is an `ADD_PROVIDER` message (key 1, the replying peer as provider) -/
+  replyAddprov : Bool := false
+  provQuorum : List (Nat × Quorum) := []
+  -- executor box
+  execMode : Bool := false
+  pool : Kad.Executor.Pool := {}
   deriving Inhabited
 
 def init : DState := {}
@@ -200,13 +226,96 @@ def res? : String → Option Res
   | "sendok" => some .sendOk | "assumeok" => some .assumeOk | "sendfail" => some .sendFail
   | "readok" => some .readOk | "readfail" => some .readFail | _ => none
 
+def peersStr (d : DState) (k : Nat) (kind : String) (field : Nat) : String :=
+  let table := sortBy (· < ·) d.sv.table
+  if table.length ≤ d.cfg.repl then natList table
+  else
+    -- `closest` selects `repl` peers of the table by XOR distance: accept the implementation's selection
+    let pre := "resp:" ++ toString k ++ ":" ++ kind ++ ":"
+    match d.implResp.find? (fun t => t.startsWith pre) with
+    | some t =>
+      match peers? (let l := ((t.splitOn ":").getD field ""); if l = "" then "-" else l) with
+      | some ps =>
+        if ps.length = d.cfg.repl ∧ ps.all (fun x => table.contains x) ∧ ps = sortBy (· < ·) ps.eraseDups then natList ps
+        else "!bad-closest"
+      | none => "!bad-closest"
+    | none => "!no-response"
+
+def replyStr (d : DState) (k : Nat) : Kad.Serve.Reply → String
+  | .findNode _ => "resp:" ++ toString k ++ ":FIND_NODE:" ++ peersStr d k "FIND_NODE" 3
+  | .getValue r _ => "resp:" ++ toString k ++ ":GET_VALUE:rec=" ++ (match r with | some n => toString n | none => "-") ++ ":" ++
+      peersStr d k "GET_VALUE" 4
+  | .putValue key size => "resp:" ++ toString k ++ ":PUT_VALUE:" ++ toString key ++ ":" ++ toString size
+  | .getProviders ps _ => "resp:" ++ toString k ++ ":GET_PROVIDERS:prov=" ++ natList (sortBy (· < ·) ps) ++ ":" ++
+      peersStr d k "GET_PROVIDERS" 4
+
+def removeFirst {α} (f : α → Bool) : List α → List α
+  | [] => []
+  | x :: xs => if f x then xs else x :: removeFirst f xs
+
+/-- Result of a future without query id (an inbound substream). -/
+def applyInboundRes (d : DState) (p : Peer) (k : String) (tok : String) : DState :=
+  if k = "readok" then
+    match d.inReads.find? (fun x => x.1 == p && (d.inReqs.any fun r => r.1 == x.2 && r.2.2.1.isSome && r.2.2.2 != 1)) with
+    | none => fail d ("!no-such-future:" ++ tok)
+    | some (_, n) =>
+      let d1 := { d with inReads := removeFirst (fun x => x.1 == p && x.2 == n) d.inReads }
+      match (d.inReqs.find? (fun r => r.1 == n)).bind (·.2.2.1) with
+      | none => d1
+      | some req =>
+        let r := Kad.Serve.serve d1.cfg d1.sv p req
+        let d2 := { d1 with sv := r.1 }
+        let d3 := match r.2.1 with
+          | some reply => { d2 with outResp := d2.outResp ++ [replyStr d2 n reply]
+                                    inSends := d2.inSends ++ [(p, match reply with | .putValue .. => true | _ => false)] }
+          | none => d2
+        match r.2.2 with
+        | some (.record key size) => { d3 with outEv := d3.outEv ++ ["inc:record:" ++ toString key ++ ":" ++ toString size] }
+        | some (.provider key peer) => { d3 with outEv := d3.outEv ++ ["inc:provider:" ++ toString key ++ ":" ++ toString peer] }
+        | none => d3
+  else if k = "readfail" then
+    match d.inReads.find? (fun x => x.1 == p && (d.inReqs.any fun r => r.1 == x.2 && (r.2.2.1.isNone || r.2.2.2 != 0))) with
+    | none => fail d ("!no-such-future:" ++ tok)
+    | some (_, n) =>
+      { d with inReads := removeFirst (fun x => x.1 == p && x.2 == n) d.inReads, m := inboundFailed d.m p }
+  else if k = "sendok" then
+    if d.inSends.any (fun x => x.1 == p) then { d with inSends := removeFirst (fun x => x.1 == p) d.inSends }
+    else fail d ("!no-such-future:" ++ tok)
+  else if k = "assumeok" then
+    if d.inSends.any (fun x => x.1 == p && x.2) then { d with inSends := removeFirst (fun x => x.1 == p && x.2) d.inSends }
+    else fail d ("!no-such-future:" ++ tok)
+  else if k = "sendfail" then
+    if d.inSends.any (fun x => x.1 == p && !x.2) then
+      { d with inSends := removeFirst (fun x => x.1 == p && !x.2) d.inSends, m := inboundFailed d.m p }
+    else fail d ("!no-such-future:" ++ tok)
+  else fail d ("!bad-token:" ++ tok)
+
 def applyRes (d : DState) (tok : String) : DState :=
   match tok.splitOn ":" with
+  | ["res", p, "-", k] =>
+    match p.toNat? with
+    | some p => applyInboundRes d p k tok
+    | none => fail d ("!bad-token:" ++ tok)
   | ["res", p, q, k] =>
     match p.toNat?, q.toNat?, res? k with
     | some p, some q, some r =>
       match d.m.futs.find? (fun f => f.peer == p && f.q == q && Res.allowed f.kind r) with
-      | some f => { d with m := execResult d.m f r }
+      | some f =>
+        let d1 := { d with m := execResult d.m f r }
+        -- a decodable response to a lookup request: `update_routing_table` (event + table in automatic mode)
+        match r, f.kind, d.pendingReply with
+        | .readOk, .reqResp, some nodes =>
+          let ns := (nodes.filter (· ≥ 1)).take d.cfg.repl
+          { d1 with pendingReply := none
+                    outEv := d1.outEv ++ ["inc:rtu:" ++ natList ns]
+                    sv := Kad.Serve.learn d1.cfg d1.sv (ns.map fun n => (n, kindOf d1 n != 'n')) }
+        | .readOk, _, none =>
+          -- an `ADD_PROVIDER` message in place of a response fails the request and is handled like any announcement
+          if d1.replyAddprov then
+            { d1 with replyAddprov := false, sv := Kad.Serve.putProvider d1.sv 1 p
+                      outEv := d1.outEv ++ ["inc:provider:1:" ++ toString p] }
+          else d1
+        | _, _, _ => d1
       | none => fail d ("!no-such-future:" ++ tok)
     | _, _, _ => fail d ("!bad-token:" ++ tok)
   | _ => fail d ("!bad-token:" ++ tok)
@@ -228,7 +337,12 @@ def requestName (d : DState) (f : Fut) : String :=
   | .sendMsg, some (_, _, key) => "ADD_PROVIDER:" ++ toString key
   | _, none => "?"
 
-def startCmd (d : DState) (name : String) (kind : QKind) (key : Nat) (c : Cmd) : DState × String :=
+def liveKeys (sv : Kad.Serve.SState) : List Nat := (sv.records.filter (fun r => !r.expired)).map (·.key)
+
+def startCmd (d0 : DState) (name : String) (kind : QKind) (key : Nat) (c : Cmd) : DState × String :=
+  -- `store.get` of `GetRecord` drops an expired record; the coordinator model reads the live keys
+  let sv := if kind = .getRecord then (Kad.Serve.storeGet d0.sv key).1 else d0.sv
+  let d := { d0 with sv := sv, m := ((step d0.m (.setStored (liveKeys sv))).getD d0.m) }
   let q := d.m.nextQid
   let before := d.m.events.length
   let hadLocal := decide (key ∈ d.m.stored)
@@ -238,20 +352,40 @@ def startCmd (d : DState) (name : String) (kind : QKind) (key : Nat) (c : Cmd) :
   (pushEvents d2 before, "q=" ++ toString q)
 
 /-- Apply the operation itself; `none` = unparseable. Returns the head of the observation. -/
-def primitive (d : DState) (ts : List String) : Option (DState × String) :=
+def stripAwait (ts : List String) : Option (List String) :=
+  match ts with
+  | op :: rest =>
+    if op.endsWith "_a" then
+      let base := (op.dropEnd 2).toString
+      if ["add_known_peer", "find_node", "put_record", "put_record_to", "get_record", "store_record"].contains base
+      then some (base :: rest) else none
+    else some ts
+  | [] => some []
+
+def primitive (d : DState) (ts0 : List String) : Option (DState × String) :=
+  match stripAwait ts0 with
+  | none => none
+  | some ts =>
   match ts with
   | ["add_known_peer", p] =>
     match p.toNat? with
-    | some p => if 1 ≤ p ∧ p ≤ maxPeer then some (d, "ok") else none
+    | some p => if 1 ≤ p ∧ p ≤ maxPeer then some ({ d with sv := Kad.Serve.addKnown d.sv p (kindOf d p != 'n') }, "ok") else none
     | none => none
   | ["find_node", t] => t.toNat?.map fun _ => startCmd d "find_node" .findNode 0 .findNode
   | "put_record" :: k :: rest =>
     match k.toNat?, quorum? rest.head? with
-    | some k, some qu => if k < 256 then some (startCmd d "put_record" .putRecord k (.putRecord k qu)) else none
+    | some k, some qu =>
+      if k < 256 then
+        some (startCmd { d with sv := Kad.Serve.storePut d.cfg d.sv ⟨k, 1, d.cfg.ttl0⟩ } "put_record" .putRecord k (.putRecord k qu))
+      else none
     | _, _ => none
   | "put_record_to" :: k :: ps :: rest =>
     match k.toNat?, peers? ps, quorum? rest.head? with
-    | some k, some _, some qu => if k < 256 then some (startCmd d "put_record_to" .putToPeers k (.putToPeers k qu)) else none
+    | some k, some _, some qu =>
+      if k < 256 then
+        let d1 := if rest.getD 1 "" = "local" then { d with sv := Kad.Serve.storePut d.cfg d.sv ⟨k, 1, d.cfg.ttl0⟩ } else d
+        some (startCmd d1 "put_record_to" .putToPeers k (.putToPeers k qu))
+      else none
     | _, _, _ => none
   | "get_record" :: k :: rest =>
     match k.toNat?, quorum? rest.head? with
@@ -259,7 +393,70 @@ def primitive (d : DState) (ts : List String) : Option (DState × String) :=
     | _, _ => none
   | "start_providing" :: k :: rest =>
     match k.toNat?, quorum? rest.head? with
-    | some k, some qu => if k < 256 then some (startCmd d "start_providing" .addProvider k (.startProviding k qu)) else none
+    | some k, some qu =>
+      if k < 256 then
+        let d1 := { d with sv := Kad.Serve.putLocalProvider d.cfg d.sv d.now k
+                           provQuorum := (k, qu) :: d.provQuorum.filter (fun x => x.1 != k) }
+        some (startCmd d1 "start_providing" .addProvider k (.startProviding k qu))
+      else none
+    | _, _ => none
+  | ["stop_providing", k] =>
+    match k.toNat? with
+    | some k => if k < 256 then some ({ d with sv := Kad.Serve.stopProviding d.sv k }, "ok") else none
+    | none => none
+  | "store_record" :: k :: rest =>
+    let size := match rest with
+      | [] => some 1
+      | [a] => if a.startsWith "size=" then (a.drop 5).toString.toNat?.bind (fun n => if n ≤ 100000 then some n else none) else none
+      | _ => none
+    match k.toNat?, size with
+    | some k, some size =>
+      if k < 256 then some ({ d with sv := Kad.Serve.storePut d.cfg d.sv ⟨k, size, d.cfg.ttl0⟩ }, "ok") else none
+    | _, _ => none
+  | "inbound" :: p :: kind :: rest =>
+    let key? (a : String) : Option Nat := a.toNat?.bind (fun k => if k < 256 then some k else none)
+    let size? (l : List String) : Option Nat := match l with
+      | [] => some 1
+      | [a] => if a.startsWith "size=" then (a.drop 5).toString.toNat?.bind (fun n => if n ≤ 100000 then some n else none) else none
+      | _ => none
+    -- outer `none`: unparseable; inner `none`: nothing is sent
+    let req : Option (Option Kad.Serve.Req × Nat) :=
+      match kind, rest with
+      | "find_node", [t] => t.toNat?.bind (fun t => if t ≤ maxPeer then some (some .findNode, 0) else none)
+      | "get_value", [k] => (key? k).map (fun k => (some (.getValue (some k)), 0))
+      | "get_value", [] => some (some (.getValue none), 0)
+      | "put_value", k :: r =>
+        match key? k, size? r with
+        | some k, some size =>
+          some (some (.putValue k size), if size + 64 ≤ d.maxmsg then 0 else if d.maxmsg < size then 1 else 2)
+        | _, _ => none
+      | "add_provider", k :: r =>
+        match key? k, p.toNat? with
+        | some k, some sender =>
+          match r with
+          | [] => some (some (.addProvider k sender), 0)
+          | [a] => if a.startsWith "as=" then
+              (a.drop 3).toString.toNat?.bind (fun q => if q ≤ maxPeer then some (some (.addProvider k q), 0) else none)
+            else none
+          | _ => none
+        | _, _ => none
+      | "get_providers", [k] => (key? k).map (fun k => (some (.getProviders (some k)), 0))
+      | "get_providers", [] => some (some (.getProviders none), 0)
+      | "garbage", [] => some (some .garbage, 0)
+      | "silent", [] => some (none, 0)
+      | "eof", [] => some (none, 0)
+      | _, _ => none
+    match p.toNat?, req with
+    | some p, some (req, big) =>
+      if p < 1 ∨ p > maxPeer then none
+      else match d.conns.find? (fun c => c.peer == p) with
+        | some c =>
+          if c.dead then some (d, "noop")
+          else
+            let n := d.nInbound
+            some ({ d with nInbound := n + 1, m := inbound d.m p, inReqs := d.inReqs ++ [(n, p, req, big)]
+                           inReads := d.inReads ++ [(p, n)] }, "in=" ++ toString n)
+        | none => some (d, "noop")
     | _, _ => none
   | ["get_providers", k] =>
     match k.toNat? with
@@ -331,7 +528,11 @@ def primitive (d : DState) (ts : List String) : Option (DState × String) :=
         if w.isEmpty then some (d, "noop")
         else
           let (sid, _) := w.getD (k % w.length) (0, 0)
-          some ({ d with waiting := d.waiting.filter (fun x => x.1 != sid) }, "sid=" ++ toString sid)
+          let plain := !(rest.contains "garbage" || rest.contains "addprov")
+          let nodes := ((rest.find? (fun a => a.startsWith "nodes=")).bind (fun a => peers? (a.drop 6).toString)).getD []
+          some ({ d with waiting := d.waiting.filter (fun x => x.1 != sid)
+                         pendingReply := if plain then some nodes else none
+                         replyAddprov := rest.contains "addprov" }, "sid=" ++ toString sid)
   | ["close", k] =>
     match idx? k with
     | none => none
@@ -343,7 +544,19 @@ def primitive (d : DState) (ts : List String) : Option (DState × String) :=
         some ({ d with waiting := d.waiting.filter (fun x => x.1 != sid) }, "sid=" ++ toString sid)
   | ["advance", ms] =>
     match ms.toNat? with
-    | some ms => if ms ≤ 120000 then some (d, "ok") else none
+    | some ms =>
+      if ms ≤ 120000 then
+        let now := d.now + ms
+        let due := Kad.Serve.dueTimers d.sv now
+        let d1 := { d with now := now, sv := { d.sv with timers := d.sv.timers.filter (fun t => !(t.1 ≤ now)) } }
+        -- a due refresh timer republishes the provider unless `stop_providing` removed it
+        some (due.foldl (fun d t =>
+          if t.2 ∈ d.sv.localProv then
+            let qu := ((d.provQuorum.find? (fun x => x.1 == t.2)).map (·.2)).getD .one
+            (startCmd { d with sv := Kad.Serve.putLocalProvider d.cfg d.sv d.now t.2 } "refresh" .addProvider t.2
+              (.startProviding t.2 qu)).1
+          else d) d1, "ok")
+      else none
     | none => none
   | ["events"] => some (d, "ok")
   | _ => none
@@ -351,10 +564,11 @@ def primitive (d : DState) (ts : List String) : Option (DState × String) :=
 /-- One primitive operation with the implementation's observation: returns the model's observation. -/
 def runPrimitive (d : DState) (ts : List String) (obs : String) : Option (DState × String) :=
   let sidBefore := d.m.nextSid
-  match primitive { d with outRx := [], outEv := [], dialCmds := [], err := none } ts with
+  let toks := tokens ((obs.splitOn " # ").headD "")
+  match primitive { d with outRx := [], outEv := [], dialCmds := [], err := none, outResp := [], pendingReply := none, replyAddprov := false
+                           implResp := toks.filter (fun t => t.startsWith "resp:") } ts with
   | none => none
   | some (d1, head) =>
-    let toks := tokens ((obs.splitOn " # ").headD "")
     let trace := toks.filter (fun t => t.startsWith "act:" || t.startsWith "res:")
     let d2 := applyTrace d1 trace
     let d3a := if engineIdle d2.m.engine then d2 else fail d2 "!engine-not-idle"
@@ -370,11 +584,11 @@ def runPrimitive (d : DState) (ts : List String) (obs : String) : Option (DState
       | none => "open:?:" ++ toString sid
     let out := trace ++ (match d5.err with | some e => [e] | none => []) ++
       d5.dialCmds.map (fun p => "dial:" ++ toString p) ++ opens ++
-      (sortBy (fun a b => a.1 < b.1) d5.outRx).map (fun r => "rx:" ++ toString r.1 ++ ":" ++ r.2) ++ d5.outEv
+      (sortBy (fun a b => a.1 < b.1) d5.outRx).map (fun r => "rx:" ++ toString r.1 ++ ":" ++ r.2) ++ d5.outResp ++ d5.outEv
     some (d5, head ++ " " ++ joinWith " " out ++ " # " ++ stateStr d5.m)
 
 def ledgerStr (d : DState) : String :=
-  let started := d.m.started.map fun q =>
+  let started := (d.m.started.filter fun q => (qinfo d q).map (·.1) != some "refresh").map fun q =>
     toString q ++ ":" ++ (match qinfo d q with | some (n, _, _) => n | none => "?")
   let terminal := sortBy (· < ·) (d.m.events.map fun e => toString e.1 ++ ":" ++ eventName d e.1 e.2)
   "settled started[" ++ joinWith " " started ++ "] terminal[" ++ joinWith " " terminal ++ "]"
@@ -412,6 +626,88 @@ def s2Step (ts : List String) (obs : String) : String :=
       "s2 terminal=" ++ s2Expected fault op quorum ++ " received=" ++ (if okRecv then received else "?")
   | _, _, _ => "bad-op"
 
+/-! ### configuration (`net` options) -/
+
+def natOpt (v : String) (lo hi : Nat) : Option Nat := v.toNat?.bind (fun n => if lo ≤ n ∧ n ≤ hi then some n else none)
+
+/-- One `key=value` option; `none` = not accepted. -/
+def applyOpt (d : DState) (kinds : List Char) (o : String) : Option DState :=
+  match o.splitOn "=" with
+  | ["repl", v] => v.toNat?.map fun n => { d with cfg := { d.cfg with repl := n } }
+  | ["valid", "manual"] => some { d with cfg := { d.cfg with manualValidation := true } }
+  | ["valid", "auto"] => some d
+  | ["update", "manual"] => some { d with cfg := { d.cfg with manualUpdate := true } }
+  | ["update", "auto"] => some d
+  | ["ttl", "0"] => some { d with cfg := { d.cfg with ttl0 := true } }
+  | ["provttl", "0"] => some { d with cfg := { d.cfg with provTtl0 := true } }
+  | ["refresh", v] => (natOpt v 1 100000).map fun n => { d with cfg := { d.cfg with refresh := n * 1000 } }
+  | ["maxmsg", v] => (natOpt v 256 (2 ^ 62)).map fun n => { d with maxmsg := n }
+  | ["maxrec", v] => v.toNat?.map fun n => { d with cfg := { d.cfg with maxRecords := n } }
+  | ["maxsize", v] => v.toNat?.map fun n => { d with cfg := { d.cfg with maxRecordSize := n } }
+  | ["known", v] =>
+    (peers? v).map fun ps =>
+      { d with sv := (ps.filter (· ≥ 1)).foldl (fun sv p => Kad.Serve.addKnown sv p (kinds.getD (p - 1) 'n' != 'n')) d.sv }
+  | ["proto", "2"] => some d
+  | ["default", "1"] => some d
+  | _ => none
+
+/-! ### the executor box (`x` operations) -/
+
+open Kad.Executor in
+def execResStr : Kad.Executor.Res → String
+  | .sendOk => "sendok" | .assumeOk => "assumeok" | .sendFailTimeout => "sendfail.timeout"
+  | .sendFailClosed => "sendfail.closed" | .readOk => "readok" | .readFailTimeout => "readfail.timeout"
+  | .readFailClosed => "readfail.closed"
+
+def deliveredStr (ds : List (Nat × Kad.Executor.Res × Bool × Nat)) : List String :=
+  (sortBy (fun a b => a.1 < b.1) ds).map fun x =>
+    "res:" ++ toString x.1 ++ ":" ++ execResStr x.2.1 ++ ":" ++ (if x.2.2.1 then "1" else "0") ++ "@" ++ toString x.2.2.2
+
+def execLimit : Nat := 200
+
+def execEv? (a : String) : Option (Nat × Kad.Executor.Ev) :=
+  match a.splitOn "@" with
+  | [name, time] =>
+    match natOpt time 0 execLimit with
+    | none => none
+    | some t =>
+      if name = "w" then some (t, .writable) else if name = "reset" then some (t, .reset)
+      else if name = "msg" then some (t, .msg) else if name = "eof" then some (t, .eof)
+      else if name = "junk" then some (t, .junk) else none
+  | _ => none
+
+def execKind? : String → Option Kad.Executor.Kind
+  | "send" => some .send | "sendeat" => some .sendEat | "read" => some .read
+  | "reqresp" => some .reqResp | "reqeat" => some .reqEat | _ => none
+
+def outLine (toks : List String) : String := if toks.isEmpty then "ok" else "ok " ++ joinWith " " toks
+
+def execStep (d : DState) (ts : List String) : DState × String :=
+  let w := Consts.KAD_WRITE_TIMEOUT_SECS
+  let r := Consts.KAD_READ_TIMEOUT_SECS
+  match ts with
+  | "sub" :: id :: kind :: rest =>
+    let args := rest.filter (· != "big")
+    let evs := args.map execEv?
+    match natOpt id 0 execLimit, execKind? kind with
+    | some fid, some kind =>
+      if evs.any (·.isNone) ∨ (d.pool.submitted.map (·.1)).contains fid then (d, "bad-op")
+      else
+        let before := d.pool.delivered.length
+        let pool := d.pool.submit w r fid kind (rest.contains "big") (evs.filterMap (fun e => e))
+        ({ d with pool := pool, execMode := true }, outLine (deliveredStr (pool.delivered.drop before)))
+    | _, _ => (d, "bad-op")
+  | ["tick", n] =>
+    match natOpt n 0 execLimit with
+    | none => (d, "bad-op")
+    | some n =>
+      let r := (List.range n).foldl (fun (acc : Kad.Executor.Pool × List String) _ =>
+        let before := acc.1.delivered.length
+        let p := acc.1.tick r
+        (p, acc.2 ++ deliveredStr (p.delivered.drop before))) (d.pool, [])
+      ({ d with pool := r.1, execMode := true }, outLine r.2)
+  | _ => (d, "bad-op")
+
 def step (d : DState) (line : String) : DState × String :=
   let (op, obs) := match line.splitOn " -> " with
     | [] => ("", "")
@@ -420,11 +716,18 @@ def step (d : DState) (line : String) : DState × String :=
   let ts := tokens op
   match ts with
   | "s2" :: rest => (d, s2Step rest obs)
+  | "x" :: rest => if d.ready then (d, "bad-op") else execStep d rest
   | "net" :: ks =>
     let kinds := (ks.filter (fun k => !k.contains '=')).map (fun k => k.toList.headD 'x')
-    let replOk := ks.all (fun k => !k.contains '=' || (k.startsWith "repl=" && (k.drop 5).toString.toNat?.isSome))
-    if d.ready ∨ kinds.isEmpty ∨ kinds.length > maxPeer ∨ kinds.any (fun k => !(k == 'g' || k == 'b' || k == 'n')) ∨ !replOk
-    then (d, "bad-op") else ({ d with ready := true, kinds := kinds }, "ok")
+    let opts := ks.filter (fun k => k.contains '=')
+    let d1 := opts.foldl (fun (acc : Option DState) o => acc.bind (fun d => applyOpt d kinds o)) (some d)
+    let defaultOk := !opts.contains "default=1" || opts.length == 1
+    match d1 with
+    | some d1 =>
+      if d.ready ∨ d.execMode ∨ kinds.isEmpty ∨ kinds.length > maxPeer ∨
+          kinds.any (fun k => !(k == 'g' || k == 'b' || k == 'n')) ∨ !defaultOk
+      then (d, "bad-op") else ({ d1 with ready := true, kinds := kinds }, "ok")
+    | none => (d, "bad-op")
   | ["settle"] =>
     if !d.ready then (d, "bad-op") else
     -- the sub-operations the adapter performed are replayed one by one
@@ -437,7 +740,8 @@ def step (d : DState) (line : String) : DState × String :=
           | some (d', o) => (d', acc.2 ++ [sub.trimAscii.toString ++ " -> " ++ o])
           | none => (acc.1, acc.2 ++ [sub.trimAscii.toString ++ " -> bad-op"])
       | [] => acc) (d, [])
-    let quiet := r.1.m.dialing.isEmpty && r.1.m.opening.isEmpty && r.1.m.futs.isEmpty
+    let quiet := r.1.m.dialing.isEmpty && r.1.m.opening.isEmpty && r.1.m.futs.isEmpty && r.1.inReads.isEmpty &&
+      r.1.inSends.isEmpty
     (r.1, ledgerStr r.1 ++ " | " ++ joinWith " | " r.2 ++ (if quiet then "" else " !not-settled:dialing=" ++ natList r.1.m.dialing ++ ":opening=" ++
       natList (r.1.m.opening.map (·.1)) ++ ":futs=" ++ natList (r.1.m.futs.map (·.peer))))
   | _ =>
